@@ -1158,7 +1158,9 @@ class Prop(Check):
                     a: {"m": m, "rrel": m_expr("pb", 1) if (ri, a) in grr else None} for a, m in zip(ATTRS, ms)}})
             rn = rules[fr]["name"]
             keys = [f"{rn}.{fa}", f"*.{fa}", f"{rn}.*", "*.*"]
-            variant = c % 4
+            # (twelve of the histories with callables only: a history whose registrations select RREL strings / plain RREL
+            # objects is run a second time with one fresh grammar-form meta-model per registration, ~10 ms each)
+            variant = {1: 1, 6: 2, 8: 3, 15: 1}.get(c, 0)
             if variant == 0:
                 provs = [{"p": i} for i in range(4)]
                 vals = [{"o": i} for i in range(4)]
